@@ -7,6 +7,8 @@ package main
 // started since. Write verifiers are collected from every WRITE and COMMIT reply.
 
 import (
+	"strings"
+	"syscall"
 	"bytes"
 	"fmt"
 	"math/rand"
@@ -109,7 +111,22 @@ func judgeC22(c SrvCase) []Violation {
 				}
 			}
 		}
+		if o.Kind == "commit" && o.Mask == faultOpenW {
+			// the backend refuses write-mode opens while this COMMIT runs (a file without write permission on a
+			// backend that enforces modes): the model has no faults, so the trace ends here
+			if _, ok := w.handleFor(o.Dir, rootCred()); ok {
+				w.flushTrace()
+				w.noTrace = true
+				w.fs.fault = func(call string) error {
+					if strings.HasPrefix(call, "OpenFileW") {
+						return syscall.EACCES
+					}
+					return nil
+				}
+			}
+		}
 		r := w.do(o)
+		w.fs.fault = nil
 		if r.NoHandle || r.Res.Bad {
 			checkPoint("after " + curOp)
 			continue
@@ -177,6 +194,9 @@ func judgeC22(c SrvCase) []Violation {
 
 var crashPointsSeen int
 
+// faultOpenW marks a COMMIT during which the backend refuses write-mode opens (SOp.Mask is otherwise unused by COMMIT)
+const faultOpenW = 0xfa17
+
 func genC22(rng *rand.Rand, n int) SrvCase {
 	c := SrvCase{}
 	c.Cfg.AttrTTL = 1
@@ -203,6 +223,9 @@ func genC22(rng *rand.Rand, n int) SrvCase {
 			if rng.Intn(3) == 0 {
 				o.Off, o.Count = uint64(rng.Intn(8)), uint32(1+rng.Intn(16))
 			}
+			if rng.Intn(5) == 0 {
+				o.Mask = faultOpenW
+			}
 			c.Ops = append(c.Ops, o)
 		}
 	}
@@ -219,7 +242,7 @@ func checkC22(r *Result, rng *rand.Rand, thorough bool) {
 	if thorough {
 		ncases, n = 4000, 40
 	}
-	r.Rule = "random CREATE/WRITE(UNSTABLE, DATA_SYNC, FILE_SYNC)/COMMIT(whole file and ranges)/SETATTR(size) histories, with ExportOptions.Async off and on, over the crash-simulating backend; durable image checked before every backend call and after every reply; write verifier constant per instance and distinct across 64 successively created instances"
+	r.Rule = "random CREATE/WRITE(UNSTABLE, DATA_SYNC, FILE_SYNC)/COMMIT(whole file and ranges; one in five while the backend refuses write-mode opens)/SETATTR(size) histories, with ExportOptions.Async off and on, over the crash-simulating backend; durable image checked before every backend call and after every reply; write verifier constant per instance and distinct across 64 successively created instances"
 	crashPointsSeen = 0
 	for i := 0; i < ncases; i++ {
 		c := genC22(rng, 3+rng.Intn(n))
